@@ -58,6 +58,9 @@ type thread struct {
 	waitSend   []sendWait
 	selRecvIdx []int
 	quiet      int
+	// soft wait (harness rendezvous): released with giveUp when nothing else could run any more
+	soft   bool
+	giveUp bool
 }
 
 type sendWait struct {
@@ -178,6 +181,19 @@ func (s *Sched) enabledThreads(cur *thread) ([]*thread, bool) {
 		}
 		if t.isEnabled() {
 			out = append(out, t)
+		}
+	}
+	if len(out) == 0 {
+		// nothing can run: a thread parked in a soft wait gives up waiting rather than completing a deadlock
+		for _, t := range s.threads {
+			if !t.finished && t.soft && !t.giveUp {
+				t.giveUp = true
+				out = append(out, t)
+				if t == cur {
+					curAlive = true
+				}
+				break
+			}
 		}
 	}
 	return out, curAlive
